@@ -103,19 +103,20 @@ mod native {
         let tables = rt.block_on(async {
             let mut tables = 0usize;
             // kinds: 0 unchoked+interested+rates, 1 unchoked+interested+NO rates (fresh), 2 choked+interested+high rates,
-            //        3 choked+not interested+rates, 4 unchoked+not interested+rates, 5 optimistic (unchoked, interested, rates)
-            let mut c = [0usize; 6];
+            //        3 choked+not interested+rates, 4 unchoked+not interested+rates, 5 optimistic (unchoked, interested, rates),
+            //        6 optimistic that lost interest (unchoked, NOT interested, rates)
+            let mut c = [0usize; 7];
             loop {
                 let n: usize = c.iter().sum();
                 let regular0 = c[0] + c[1] + c[4];
-                if n >= 1 && n <= maxn && regular0 <= 10 && c[5] <= 1 && (n >= 10 || c[2] + c[1] > 0) {
+                if n >= 1 && n <= maxn && regular0 <= 10 && c[5] + c[6] <= 1 && (n >= 10 || c[2] + c[1] > 0 || c[6] > 0) {
                     let mut s = Session::new(torrent(2), [1u8; PEER_ID_SIZE]);
                     let mut k = 0u32;
-                    for kind in 0..6 { for _ in 0..c[kind] {
+                    for kind in 0..7 { for _ in 0..c[kind] {
                         let mut p = Peer::new(None, 2, tokio::spawn(async {}));
-                        p.am_choked = !(kind == 0 || kind == 1 || kind == 4 || kind == 5);
+                        p.am_choked = !(kind == 0 || kind == 1 || kind == 4 || kind == 5 || kind == 6);
                         p.interested = kind == 0 || kind == 1 || kind == 2 || kind == 5;
-                        p.optimistic_unchoke = kind == 5;
+                        p.optimistic_unchoke = kind == 5 || kind == 6;
                         // waiting interested peers are the fast ones; some rates lie beyond i32::MAX
                         if kind != 1 { let r = if kind == 2 { 3_000_000_000u32 + k } else { 10 + k }; p.download_rate = Some(r); p.uploaded_rate = Some(r); }
                         s.peers.insert(format!("10.0.{}.{}:1", kind, k), p);
@@ -152,9 +153,9 @@ mod native {
                 // next multiset (odometer with per-kind cap)
                 let mut i = 0;
                 loop {
-                    if i == 6 { return tables; }
+                    if i == 7 { return tables; }
                     c[i] += 1;
-                    if c[i] <= (if i == 5 { 1 } else { maxn }) && c.iter().sum::<usize>() <= maxn { break; }
+                    if c[i] <= (if i >= 5 { 1 } else { maxn }) && c.iter().sum::<usize>() <= maxn { break; }
                     c[i] = 0;
                     i += 1;
                 }
